@@ -415,8 +415,16 @@ Definition msg_class (m : msg) : rclass :=
 
 Definition set_ttls (t : Z) (l : list mrr) : list mrr := map (fun r => mk_mrr (m_owner r) t (m_type r)) l.
 
+(* Names in the tree model are numbers standing for ASCII-case-FOLDED names (the
+   driver numbers a name by its lower-case form), so [=?] on names is
+   strings.EqualFold.  That is what the code compares with since a4faf69 in both
+   self-alias tests of additionalAnswer (`strings.EqualFold(cr.Target, q.Name)`
+   in the first scan, `strings.EqualFold(target, q.Name)` in the loop): an alias
+   onto the question in another spelling is the same loop.  The list of visited
+   targets is compared as exact strings by the code (slices.Contains); the
+   driver spells every name one way as a target, so the two readings agree. *)
 (* first scan of additionalAnswer: Some None = answer already complete,
-   Some (Some t) = chase t, None = alias loops back to the question *)
+   Some (Some t) = chase t, None = alias loops back to the question (folded compare) *)
 Fixpoint scan_answers (q : N) (l : list mrr) (acc : option N) : option (option N) :=
   match l with
   | [] => Some acc
@@ -528,7 +536,7 @@ Section Tree.
           let child_flag := used && existsb is_cname (g_an resp) in
           match target' with
           | Some t' =>
-              if (t' =? g_q m)%N then (w1, meta1, servfail_of m1, lin1)
+              if (t' =? g_q m)%N (* strings.EqualFold(target, q.Name) *) then (w1, meta1, servfail_of m1, lin1)
               else if child_flag && (0 <? cd - 1) && negb (existsb is_addr (g_an resp))
                    then chase rec n' w1 meta1 m1 lin1 depth t' (targets ++ [target]) (cd - 1)
                    else (w1, meta1, m1, lin1)
